@@ -398,36 +398,64 @@ def run_parallel(cmds, timeout):
     return res
 
 
-def run_mode(ctx, harness, driver, mode, total, shards=NCPU, extra="", drv_mode=None, timeout=900, seed_offset=0):
+def run_mode(ctx, harness, driver, mode, total, shards=NCPU, extra="", drv_modes=None, timeout=900, seed_offset=0, tag=None):
     """Runs `harness <mode>` in `shards` processes (different seeds derived from ctx.seed), then the
-    driver on each output.  Returns list of (impl_cases, model_cases) per shard; a crashed shard is
-    reported through ctx.violation by the caller (we return its rc/out)."""
+    driver (once per entry of drv_modes = [(driver mode, extra args)]) on each output.
+    Returns a list with one entry per shard: (impl_cases, [model_cases per drv mode], cases_path),
+    or (error-kind, (rc, output), command) for a crashed shard."""
+    drv_modes = drv_modes or [(mode, "")]
+    tag = tag or mode
     per = max(1, (total + shards - 1) // shards)
     hc, files = [], []
     for s in range(shards):
-        cf = os.path.join(ctx.work, "%s.%d.cases" % (mode, s))
-        mf = os.path.join(ctx.work, "%s.%d.model" % (mode, s))
-        for p in (cf, mf):
+        cf = os.path.join(ctx.work, "%s.%d.cases" % (tag, s))
+        mfs = [os.path.join(ctx.work, "%s.%d.%s.model" % (tag, s, dm)) for dm, _ in drv_modes]
+        for p in [cf] + mfs:
             try:
                 os.remove(p)
             except OSError:
                 pass
         seed = (ctx.seed * 1000003 + seed_offset * 7919 + s * 101 + 17) % (2 ** 62)
-        hc.append("%s %s --seed %d --count %d --tier %s --out %s %s" % (harness, mode, seed, per, ctx.tier, cf, extra))
-        files.append((cf, mf))
+        hc.append("%s %s --seed %d --count %d --tier %s --out %s --shard %d/%d %s" % (harness, mode, seed, per, ctx.tier, cf, s, shards, extra))
+        files.append((cf, mfs))
     r1 = run_parallel(hc, timeout)
-    dc = ["%s %s %s > %s" % (driver, drv_mode or mode, cf, mf) for cf, mf in files]
+    dc = []
+    for cf, mfs in files:
+        for (dm, dx), mf in zip(drv_modes, mfs):
+            dc.append("%s %s %s %s > %s" % (driver, dm, cf, dx, mf))
     r2 = run_parallel(dc, timeout)
     out = []
-    for s, (cf, mf) in enumerate(files):
+    k = len(drv_modes)
+    for s, (cf, mfs) in enumerate(files):
         if r1[s][0] != 0 or not os.path.exists(cf):
             out.append(("harness-failed", r1[s], hc[s]))
             continue
-        if r2[s][0] != 0:
-            out.append(("driver-failed", r2[s], dc[s]))
+        bad = [j for j in range(k) if r2[s * k + j][0] != 0]
+        if bad:
+            out.append(("driver-failed", r2[s * k + bad[0]], dc[s * k + bad[0]]))
             continue
-        out.append((parse_cases(cf), parse_cases(mf), cf))
+        out.append((parse_cases(cf), [parse_cases(mf) for mf in mfs], cf))
     return out
+
+
+def repo_const(path, regex, default=None):
+    """Reads a constant from /repo's current sources (the 'Consts' translator of DESIGN 6.5)."""
+    try:
+        m = re.search(regex, open(os.path.join(REPO, path)).read())
+        if m:
+            return m.group(1)
+    except OSError:
+        pass
+    return default
+
+
+def hybrid_threshold():
+    v = repo_const("src/encodings/hybrid_complete_constraints_encoder.rs",
+                   r"DEFENDER_SETS_PROD_THRESHOLD\s*:\s*usize\s*=\s*([^;]+);", "1 << 5")
+    try:
+        return int(eval(v.replace("usize", ""), {"__builtins__": {}}))
+    except Exception:
+        return 32
 
 
 def first_diff(a, b):
